@@ -40,7 +40,7 @@ CONSTANTS N,      \* number of nodes
           INF,    \* the tick value that stands for float('Inf') (>= every value)
           Types,  \* xi / zeta types ("TYPED")
           Probs,  \* keep probabilities <<num, den>> ("BOND")
-          Given   \* sequence of explicit scenarios <<kind, src>> (InitGiven)
+          Given   \* set of explicit scenarios <<kind, src>> of one kind (InitGiven)
 
 ASSUME N \in Nat \ {0}
 ASSUME \A x \in Vals : x \in Nat /\ x <= INF
@@ -123,8 +123,7 @@ InitTyped   == \E E \in SUBSET UPairs : \E x, z \in [Node -> Types] :
 InitTiming  == \E E \in SUBSET UPairs : \E d \in [Node -> Vals] :
                    \E dl \in [DirEdges(GraphOf(E)) -> Vals] :
                        Start("TIMING", [g |-> GraphOf(E), dur |-> d, delay |-> dl])
-InitGiven   == LET gv == Given   \* evaluated once (Given is usually a long generated tuple)
-               IN \E i \in 1..Len(gv) : Start(gv[i][1], gv[i][2])
+InitGiven   == \E sc \in Given : Start(sc[1], sc[2])
 
 Compose == {<<pq[1][1], pq[2][2]>> : pq \in {x \in R \X R : x[1][2] = x[2][1]}}
 
